@@ -450,6 +450,18 @@ def np_max(ex, st, a, axis=None, **kw):
         n, m = arr.shape
         return ArrayVal((n,), lambda i: _argext_concrete(ArrayVal((m,), lambda j: arr.get(i, j), arr.dtype),
                                                          lambda x, b: s_lt(b, x))[1], arr.dtype)
+    if arr.ndim == 2 and axis is None:
+        # maximum over a 2-d region of symbolic shape: m bounds every entry and is attained; a zero-size array raises
+        # ValueError in numpy: that path is not followed (the exception clause is not part of the range claims)
+        n0, n1 = to_int(arr.shape[0]), to_int(arr.shape[1])
+        st.assume(z3.And(n0 > 0, n1 > 0))
+        ex.assumed.append('model: max() of an empty 2-d slice raises ValueError; that path is not followed')
+        a, b = z3.Int(fresh_name('ma')), z3.Int(fresh_name('mb'))
+        i, j = z3.Int(fresh_name('i')), z3.Int(fresh_name('j'))
+        m = arr.get(a, b)
+        st.assume(z3.And(a >= 0, a < n0, b >= 0, b < n1))
+        st.assume(z3.ForAll([i, j], z3.Implies(z3.And(i >= 0, i < n0, j >= 0, j < n1), to_z3(s_le(arr.get(i, j), m)))))
+        return m
     raise Unsupported('max pattern')
 
 
@@ -533,7 +545,31 @@ def np_flip(ex, st, a, **kw):
     return ArrayVal(a.shape, lambda i, *r: a.get(s_sub(s_sub(n, 1), i), *r), a.dtype)
 
 
+EXP = z3.Function('EXP', z3.RealSort(), z3.RealSort())
+_x = z3.Real('x')
+EXP_AXIOMS = [(['EXP'], z3.ForAll([_x], EXP(_x) > 0, patterns=[EXP(_x)])),
+              (['EXP'], z3.ForAll([_x], z3.Implies(_x <= 0, EXP(_x) <= 1), patterns=[EXP(_x)]))]
+
+
+def s_exp(v):
+    if is_conc_num(v) and v == 0:
+        return 1.0
+    if isinstance(v, XReal) or kind(v) == 'xreal':
+        v = to_xreal(v)
+        return ite(v.ninf, z3.RealVal(0), EXP(v.val))     # exp(-inf) = 0 ; +inf excluded
+    return EXP(to_real(v))
+
+
+def np_exp(ex, st, a, **kw):
+    ex.assumed.append('model: exp is an uninterpreted function with the axioms exp(x) > 0 and x <= 0 => exp(x) <= 1')
+    if isinstance(a, (ArrayVal, NDRef)):
+        r, _ = elementwise(s_exp, st, a)
+        return r
+    return s_exp(a)
+
+
 LIB = {
+    'np.exp': np_exp, 'math.exp': np_exp,
     'np.array': np_array, 'np.asarray': np_asarray, 'np.fromiter': lambda ex, st, v, **kw: np_array(ex, st, v), 'np.arange': np_arange, 'np.full': np_full,
     'np.ones': np_ones, 'np.zeros': np_zeros, 'np.zeros_like': np_zeros_like, 'np.minimum': np_minimum,
     'np.maximum': np_maximum, 'np.copy': np_copy, 'np.sum': np_sum, 'np.any': np_any, 'np.all': np_all,
@@ -728,19 +764,20 @@ LIB.update({
     'builtins.all': b_all, 'builtins.any': b_any, 'builtins.abs': b_abs, 'builtins.sorted': b_sorted,
     'builtins.bool': lambda ex, st, v=False: truthy(v),
     'builtins.print': lambda ex, st, *a, **k: None,
-    'math.exp': None,
 })
 
 
 def call_lib(ex, st, name, args, kwargs, node):
     if name.startswith('numpy.'):
         name = 'np.' + name[6:]
+    ov = ex.contract.ghosts.get('lib:' + name)
+    if ov is not None:
+        return ov(ex, st, *args, **kwargs)
     fn = LIB.get(name)
     if fn is None:
-        ov = ex.contract.ghosts.get('lib:' + name)
-        if ov is not None:
-            return ov(ex, st, *args, **kwargs)
         raise Unsupported('library function %s is not modelled (line %s)' % (name, getattr(node, 'lineno', '?')))
+    if name == 'math.exp':
+        return fn(ex, st, *args)
     if name.startswith('np.') and name not in ('np.array', 'np.asarray'):
         kwargs = dict(kwargs)
         kwargs['_node'] = node
